@@ -241,6 +241,53 @@ fn check_edge_point(c: &EdgeOp) -> CaseResult {
     pass(true, format!("edge/{}", if l.is_one() { "affine" } else { "jacobian" }))
 }
 
+/// Two distinct points with the same ordinate: P = (x1, y), Q = (x2, y), x2 = (-x1 + sqrt(12 - 3 x1^2)) / 2 (for a = -3), x1 walked from `start`
+#[derive(Serialize, Deserialize, Hash, Debug, Clone)]
+pub struct SameY {
+    pub start: u64,
+    pub lambda_p: Hex,
+    pub lambda_q: Hex,
+}
+
+fn check_same_y(c: &SameY) -> CaseResult {
+    let pr = r2::params();
+    let p = pr.p;
+    let half = mod_inv(&BigUint::from(2u32), p).unwrap();
+    let mut x1 = BigUint::from(c.start);
+    let mut found = None;
+    for _ in 0..4000 {
+        let xf = r2::fp(&x1);
+        let rhs = xf.sqr().mul(&xf).add(&pr.curve.a.mul(&xf)).add(&pr.curve.b);
+        let disc = r2::fp(&((BigUint::from(12u32) + p * 3u32 - (&x1 * &x1 * 3u32) % p) % p));
+        if let (Some(y), Some(s)) = (rhs.sqrt_3mod4(), disc.sqrt_3mod4()) {
+            let x2 = ((p - &x1 + &s.v) * &half) % p;
+            let q = Some((r2::fp(&x2), y.clone()));
+            if x2 != x1 && pr.curve.on_curve(&q) {
+                found = Some((Some((xf, y)), q));
+                break;
+            }
+        }
+        x1 += 1u32;
+    }
+    let Some((p_ref, q_ref)) = found else { return pass(false, "no-same-y-pair-found") };
+    let nz = |h: &Hex| { let v = from_be(h) % p; if v.is_zero() { BigUint::one() } else { v } };
+    let (lp, lq) = (nz(&c.lambda_p), nz(&c.lambda_q));
+    let (p_lib, q_lib) = (lib_point(&p_ref, &lp), lib_point(&q_ref, &lq));
+    let desc = format!("P={} Q={} (same y, Z_P={:x}, Z_Q={:x})", show(&p_ref), show(&q_ref), lp, lq);
+    for (what, a, b, want) in [
+        ("P+Q", &p_lib, &q_lib, pr.curve.add(&p_ref, &q_ref)),
+        ("Q+P", &q_lib, &p_lib, pr.curve.add(&p_ref, &q_ref)),
+        ("P+(-Q)", &p_lib, &lib_point(&pr.curve.neg(&q_ref), &lq), pr.curve.add(&p_ref, &pr.curve.neg(&q_ref))),
+    ] {
+        let got = catch(|| a.point_add(b)).map_err(|e| Fail { key: "entry=Point::point_add outcome=panic".into(), detail: format!("{} {}: {}", what, desc, e) })?;
+        check_lib_point("Point::point_add", &got, &want, &format!("{} {}", what, desc)).map_err(|mut f| {
+            f.key = format!("{} input=same-y", f.key);
+            f
+        })?;
+    }
+    pass(true, "same-y")
+}
+
 #[derive(Serialize, Deserialize, Hash, Debug, Clone)]
 pub struct SM {
     pub p: PRep,
@@ -510,6 +557,16 @@ pub fn run(ctx: &Ctx) {
     ctx.cold("cold_start_field_ops", "one field operation as the first library operation of a fresh process (every operation of the table)", || {
         (0..OPS.len() as u8).map(|op| FOp { op, a: Hex(expand_bytes(op as u64 ^ 0xc110, 32)), b: Hex(expand_bytes(op as u64 ^ 0xc111, 32)) }).collect()
     }, check_fop);
+
+    ctx.listed("same_ordinate_pairs", "distinct points P = (x1, y), Q = (x2, y) with the same y (x2 solved from x1; the two x-differences and y-differences of the addition formulas then take the values a generic pair never gives: S1 = S2 with U1 != U2), in several Jacobian representations: P+Q, Q+P, P+(-Q)", || {
+        let mut v = Vec::new();
+        for i in 0..12u64 {
+            for (lp, lq) in [(1u64, 1u64), (1, 2), (0x1234_5678_9abc, 1), (0xdead_beef, 0xfeed_f00d)] {
+                v.push(SameY { start: 2 + i * 1000, lambda_p: gen::hex32(&BigUint::from(lp)), lambda_q: gen::hex32(&BigUint::from(lq)) });
+            }
+        }
+        v
+    }, check_same_y);
 
     ctx.listed("edge_points", "boundary points of the curve (x next to 0, n, p, 2^256-p, powers of two; Montgomery x with all-ones / zero limbs; y with a leading zero byte) in affine and two Jacobian representations: dbl, add (G, itself, its negative), scalar_mul, encode, decode", || {
         let mut v = Vec::new();
